@@ -201,3 +201,38 @@ class PoolSocMonotone:
         used_not_lower="USED(" + N + ") <= USED2(" + N + ")",
         mean_not_lower="implies(TOT(" + N + ") > 0 and TOT2(" + N + ") > 0, USED(" + N + ") / TOT(" + N + ") <= USED2(" + N + ") / TOT2(" + N + "))",
     )
+
+
+# ------------------------------------------------------------------ the aggregator's working set
+METHODS = "frequenz.sdk.timeseries.battery_pool._methods"
+from pyvc.spec import ExtObj, OpaqueT, Bool   # noqa: E402  pylint: disable=wrong-import-position
+
+AggregatorT = Obj(f"{METHODS}:SendOnUpdate", _working_batteries=SetOf(Int),
+                  _metric_calculator=ExtObj("MetricCalculator", batteries=SetOf(Int)),
+                  _cached_metrics=ExtObj("dict[int, ComponentMetricsData]", methods=dict(pop=dict(effects={"n_pop": "self.n_pop + 1"})), n_pop=Int), _bat_inv_map=ExtObj("dict[int, set[int]]", methods={"__getitem__": dict(returns="invs")}),
+                  _update_event=ExtObj("asyncio.Event", methods=dict(set=dict(effects={"n_set": "self.n_set + 1"})),
+                                       n_set=Int))
+
+
+@contract(f"{METHODS}:SendOnUpdate.update_working_batteries")
+class UpdateWorkingBatteries:
+    """C18 (which batteries the aggregate covers): after a status update the aggregator's working set is exactly
+    the reported working batteries the calculator knows and a recalculation is requested exactly when that set
+    changed.  (Which cache entries are dropped is not stated here: the cache is a scripted collaborator.)"""
+    self_shape = AggregatorT
+    shapes = dict(new_working_batteries=SetOf(Int))
+    modifies = ["self._working_batteries", "self._cached_metrics", "self._update_event"]
+    ghost = dict(invs=SetOf(Int))      # the inverters adjacent to a battery: some set (every battery is mapped)
+    _LOOP = dict(
+        havoc_fields={"self._cached_metrics.n_pop": Int, "self._cached_metrics.calls": OpaqueT("log"),
+                      "self._cached_metrics.results": OpaqueT("log")},
+        invariant=dict(
+            working_set_untouched="self._working_batteries == old(self._working_batteries)",
+            event_untouched="self._update_event.n_set == old(self._update_event.n_set)",
+        ))
+    loops = {"for battery_id in stopped_working": _LOOP, "for inv_id in self._bat_inv_map[battery_id]": _LOOP}
+    ensures = dict(
+        working_set_is_reported_set="self._working_batteries == new_working_batteries.intersection(self._metric_calculator.batteries)",
+        recalculation_iff_changed="(self._update_event.n_set > old(self._update_event.n_set))"
+                                  " == (self._working_batteries != old(self._working_batteries))",
+    )
